@@ -130,7 +130,7 @@ def forbidden_scan():
 def build_coq():
     """Full .vo build of the development (serialised with flock). Returns (ok, log)."""
     cmd = ('flock %s/.buildlock sh -c "cd %s && '
-           '( [ -f Makefile ] || coq_makefile -f _CoqProject %s -o Makefile >/dev/null ) && '
+           'coq_makefile -f _CoqProject %s -o Makefile >/dev/null && '
            'timeout 1500 make -j16 -k 2>&1 | tail -40"' % (COQ, COQ, ' '.join(coq_sources())))
     rc, out = sh(cmd, timeout=1700)
     return out
